@@ -144,6 +144,13 @@ def offset(repo: Repo, chk: Check) -> None:
     for n in ast.walk(f.node):
         if isinstance(n, ast.Call) and isinstance(n.func, ast.Attribute) and n.func.attr == "eval" and n.args and not _is_zero_list(n.args[0]):
             maps_used.add(ast.unparse(n.func.value))
+    # ... and the same evaluations reached through a helper the walker went into
+    for s in fl.calls("eval"):
+        n = s.node
+        if s.reachable and isinstance(n, ast.Call) and isinstance(n.func, ast.Attribute) and n.args and not _is_zero_list(n.args[0]):
+            maps_used.add(ast.unparse(norm.canon(norm.primary(fl.cone(n.func.value, s, inline=0)))))
+            maps_used.add(ast.unparse(norm.primary(s.expand(n.func.value))))
+            maps_used.add(ast.unparse(n.func.value))
     # pointers
     ap = fl.calls("AccessPatternOp")
     if len(ap) != 1:
